@@ -155,7 +155,17 @@ class Gen:
             cases.append((labels, self.block(env, depth + 1, value)))
         default = self.block(env, depth + 1, value) if r.chance(2, 3) else None
         pos = r.below(len(cases) + 1)
-        return ('switch', subj, cases, default, pos)
+        if r.chance(1, 2):
+            # the subject is the label of one of the cases (mostly the first one): a case that matches leaves its own
+            # leftovers in the part of the stack that belongs to the switch body
+            self.note('switch:subject is a label')
+            subj = cases[0 if r.chance(2, 3) else r.below(len(cases))][0][0]
+        # some of the leading cases may stand in a block that the switch body calls (a shared case list): the first match
+        # still wins, wherever it was found
+        wrapn = r.below(min(pos, len(cases)) + 1) if r.chance(1, 3) else 0
+        if wrapn:
+            self.note('switch:cases in a called block')
+        return ('switch', subj, cases, default, pos, wrapn)
 
     def vexpr(self, env, depth):
         """a value-yielding construct used as an expression"""
@@ -164,7 +174,8 @@ class Gen:
             return self.num(env)
         k = r.weighted([('num', 2), ('call', 3), ('ifelse', 3), ('switch', 2), ('count', 2), ('findif', 2), ('callargs', 2),
                         ('try', 2), ('breakout', 3), ('exitwith', 2), ('inarr', 2), ('selnum', 1), ('isnil', 1),
-                        ('exc', 3 if self.errors else 0), ('excexit', 2 if self.errors else 0), ('rethrow', 1)])
+                        ('exc', 3 if self.errors else 0), ('excexit', 2 if self.errors else 0), ('rethrow', 1),
+                        ('exitpend', 2), ('trypend', 2)])
         self.note('v:' + k)
         if k == 'num':
             return self.num(env)
@@ -185,6 +196,12 @@ class Gen:
         if k == 'breakout':
             # few names: the same scope name is met again in dynamically enclosing scopes
             return ('breakout', r.choice(['sa', 'sb']), self.num(env), self.num(env), r.below(5), self.num(env))
+        if k == 'exitpend':
+            # a block left by exitWith while it has operands pending, a nil among them
+            return ('exitpend', self.num(env), self.boolean(env), self.num(env), self.num(env))
+        if k == 'trypend':
+            # a try block that has an operand pending when a block it called throws
+            return ('trypend', self.num(env), self.num(env))
         if k == 'rethrow':
             return ('rethrow', self.num(env), self.num(env), self.num(env), self.num(env), r.chance(1, 2))
         if k == 'exc':
@@ -228,6 +245,10 @@ class Gen:
         body = ('block', stmts, body[2])
         hval = value and r.chance(2, 3)
         hb = self.block(self.sub(env), depth + 1, hval)
+        if not value and r.chance(1, 4):
+            # a handler with nothing in it still takes the error: the protected block is left at the failing statement
+            self.note('except:empty handler')
+            hb = ('block', [], None)
         return ('exc', body, hb)
 
     def stmt(self, env, depth):
@@ -288,7 +309,17 @@ class Gen:
             step = r.choice([None, None, 1, 2, -1])
             if step == -1:
                 a, b = b, a
-            return ('for', v, a, b, step, self.block(self.sub(env, ro=env['ro'] + [v]), depth + 1))
+            blk = self.block(self.sub(env, ro=env['ro'] + [v]), depth + 1)
+            if r.chance(1, 3):
+                # the body moves its own loop variable (in the direction of the step, so that the loop still ends): the
+                # next pass continues from the value the variable holds at the end of the pass
+                self.note('for:body moves the loop variable')
+                k = r.below(3)
+                bump = ('assign', False, v, ('bin', '-' if step == -1 else '+', ('v', v), ('n', k)))
+                stmts = list(blk[1])
+                stmts.insert(r.below(len(stmts) + 1), bump)
+                blk = ('block', stmts, blk[2])
+            return ('for', v, a, b, step, blk)
         if k == 'foreach':
             e = self.sub(env, x=True, fei=True)
             if r.chance(1, 3):
@@ -382,6 +413,9 @@ def render(n):
             parts.append('; '.join('case %s' % render(l) for l in labels) + ': ' + render_block(blk))
         if default is not None:
             parts.insert(pos, 'default ' + render_block(default))
+        wrapn = n[5] if len(n) > 5 else 0
+        if wrapn:
+            parts = ['call { %s }' % '; '.join(parts[:wrapn])] + parts[wrapn:]
         return '(switch %s do { %s })' % (render(subj), '; '.join(parts))
     if k == 'countc':
         return '({%s%s} count %s)' % (pre_x(n[3]), render(n[1]), render(n[2]))
@@ -417,6 +451,10 @@ def render(n):
                 name, render(mark), name, inner)
         wrap = ['call { %s; 99 }', 'if (true) then { %s; 98 }', '{ %s; 97 } forEach [1, 2]'][form] % inner
         return '(call { scopeName "%s"; tr pushBack %s; %s; 96 })' % (name, render(mark), wrap)
+    if k == 'exitpend':
+        return '(call { count [%s, nil, if %s exitWith { %s }, %s] })' % tuple(render(x) for x in n[1:5])
+    if k == 'trypend':
+        return '(try { %s + (call { throw %s }) } catch { _exception })' % (render(n[1]), render(n[2]))
     if k == 'exitwithv':
         return '(call { if %s exitWith { tr pushBack %s; %s }; tr pushBack %s; %s })' % tuple(render(x) for x in n[1:6])
     if k == 'selnum':
@@ -687,6 +725,25 @@ class Interp:
                 if b.name != name:
                     raise
                 return b.value
+        if k == 'exitpend':
+            def body():
+                self.ev(n[1])
+                if self.ev(n[2]):
+                    raise ExitScope(self.in_scope(lambda: self.ev(n[3])))
+                self.ev(n[4])
+                return 4
+            try:
+                return self.in_scope(body, {'_this': self.lookup('_this')})
+            except ExitScope as e:
+                return e.value
+        if k == 'trypend':
+            def body():
+                self.ev(n[1])
+                return self.in_scope(lambda: self.throw(self.ev(n[2])))
+            try:
+                return self.in_scope(body)
+            except Thrown as t:
+                return self.in_scope(lambda: self.lookup('_exception'), {'_exception': t.value})
         if k == 'exitwithv':
             def body():
                 if self.ev(n[1]):
@@ -871,7 +928,14 @@ class Interp:
             if (a > b) if s > 0 else (b > a):
                 return NIL
             while True:
-                last = self.in_scope(lambda: self.run_block(blk), {v: i})
+                # the loop variable lives in the scope of the pass; the step is applied to the value it holds at the end
+                self.scopes.append({v.lower(): i})
+                try:
+                    last = self.run_block(blk)
+                    cur = self.scopes[-1].get(v.lower(), i)
+                finally:
+                    self.scopes.pop()
+                i = cur
                 if (i + s > b) if s >= 0 else (i + s < b):
                     break
                 i += s
